@@ -1780,6 +1780,38 @@ impl Analyzable for Program {
 
         let assets = self.assets.analyze(self.scope.clone());
 
+        // a policy or an asset made of itself stands for nothing
+        let mut mentions = vec![];
+
+        for policy in self.policies.iter() {
+            let mut mentioned = vec![];
+
+            if let PolicyValue::Constructor(constructor) = &policy.value {
+                for field in constructor.fields.iter() {
+                    match field {
+                        PolicyField::Hash(x) | PolicyField::Script(x) | PolicyField::Ref(x) => {
+                            mentioned_names(x, &mut mentioned)
+                        }
+                    }
+                }
+            }
+
+            mentions.push((policy.name.value.clone(), mentioned));
+        }
+
+        for asset in self.assets.iter() {
+            let mut mentioned = vec![];
+            mentioned_names(&asset.policy, &mut mentioned);
+            mentioned_names(&asset.asset_name, &mut mentioned);
+            mentions.push((asset.name.value.clone(), mentioned));
+        }
+
+        let circular = circular_definitions(&mentions)
+            .into_iter()
+            .map(Error::CircularDefinition)
+            .map(AnalyzeReport::from)
+            .fold(AnalyzeReport::default(), |acc, x| acc + x);
+
         // transactions get at these definitions through the scope: it has to hold them as
         // they are now, with the names in them resolved
         let scope = Rc::make_mut(self.scope.as_mut().unwrap());
@@ -1837,7 +1869,7 @@ impl Analyzable for Program {
             }
         }
 
-        parties + policies + types + aliases + txs + assets + duplicates
+        parties + policies + circular + types + aliases + txs + assets + duplicates
     }
 
     fn is_resolved(&self) -> bool {
